@@ -6,9 +6,21 @@
 //! Enumeration / descriptor part: one U3V device (control + stream interface), everything succeeds.
 //! Asynchronous part: a scripted device.  Every `libusb_submit_transfer` call takes the next plan
 //! entry: refuse with a libusb error code, or accept with a completion (status, length, number of
-//! harness poll operations it stays in flight).  `libusb_handle_events_locked` completes every
-//! in-flight transfer that is due or whose cancellation was requested (status CANCELLED) and runs
-//! the callbacks; `libusb_cancel_transfer` succeeds on in-flight transfers only.
+//! harness poll operations it stays in flight, cancellation latency).  Every
+//! `libusb_handle_events_locked` call (the only event-handling entry point `poll_completed` of
+//! async_read.rs uses) takes the next entry of the event plan: a libusb error code is returned at
+//! once and nothing is handled (LIBUSB_ERROR_INTERRUPTED = -10 is what a signal gives); 0 (also past
+//! the end of the plan) handles events: every in-flight transfer that is due completes, a transfer
+//! whose cancellation was requested completes with status CANCELLED once `clat` successful
+//! event-handling calls have gone by since (clat = 0: at the next one), and the callbacks run.
+//! `libusb_cancel_transfer` succeeds on in-flight transfers only.
+//!
+//! Time: the process runs on a VIRTUAL monotonic clock (`clock_gettime(CLOCK_MONOTONIC)` is defined
+//! here, so `std::time::Instant` of the code under test reads it).  It only moves when an
+//! event-handling call finds nothing to complete: like libusb, the call then blocks for the whole
+//! timeval it was given - here by advancing the clock by that timeval (+ 1 us), without sleeping.
+//! `poll_completed`'s deadline therefore passes after exactly one such call, the 1 s time-out of
+//! `Drop for AsyncPool` costs nothing, and every case is deterministic.
 #![allow(non_camel_case_types, non_snake_case, dead_code, clippy::all)]
 use std::collections::VecDeque;
 use std::os::raw::{c_char, c_int, c_uint, c_void};
@@ -49,8 +61,9 @@ pub enum Plan {
     /// refused with this libusb error code (negative)
     Refuse(c_int),
     /// accepted; completes with (status, length) once `delay` further poll operations of the
-    /// harness have begun (0: at the first event handling), or when it is cancelled
-    Accept { status: c_int, len: usize, delay: u64 },
+    /// harness have begun (0: at the first event handling); when cancelled it completes with
+    /// CANCELLED after `clat` further successful event-handling calls
+    Accept { status: c_int, len: usize, delay: u64, clat: u64 },
 }
 
 pub struct InFlight {
@@ -59,11 +72,15 @@ pub struct InFlight {
     pub status: c_int,
     pub len: usize,
     pub due: u64, // poll epoch at which it completes
+    pub clat: u64, // successful event-handling calls a requested cancellation still takes
     pub cancel: bool,
 }
 
 pub struct State {
     pub plan: VecDeque<Plan>,
+    /// return codes of the coming `libusb_handle_events_locked` calls (past the end: 0)
+    pub evplan: VecDeque<c_int>,
+    pub event_calls: usize,
     pub inflight: Vec<InFlight>,
     pub submit_calls: usize,
     pub accepted: usize,
@@ -75,6 +92,8 @@ pub struct State {
 
 pub static STATE: Mutex<State> = Mutex::new(State {
     plan: VecDeque::new(),
+    evplan: VecDeque::new(),
+    event_calls: 0,
     inflight: Vec::new(),
     submit_calls: 0,
     accepted: 0,
@@ -91,9 +110,11 @@ pub fn state() -> std::sync::MutexGuard<'static, State> {
     STATE.lock().unwrap_or_else(|e| e.into_inner())
 }
 
-pub fn reset(plan: Vec<Plan>) {
+pub fn reset(plan: Vec<Plan>, evplan: Vec<c_int>) {
     let mut st = state();
     st.plan = plan.into_iter().collect();
+    st.evplan = evplan.into_iter().collect();
+    st.event_calls = 0;
     st.inflight.clear();
     st.submit_calls = 0;
     st.accepted = 0;
@@ -493,13 +514,14 @@ pub unsafe extern "C" fn libusb_submit_transfer(transfer: *mut Transfer) -> c_in
         status: TRANSFER_COMPLETED,
         len: (*transfer).length as usize,
         delay: 0,
+        clat: 0,
     });
     match plan {
         Plan::Refuse(code) => {
             st.refused += 1;
             code
         }
-        Plan::Accept { status, len, delay } => {
+        Plan::Accept { status, len, delay, clat } => {
             let index = st.accepted;
             st.accepted += 1;
             st.inflight.push(InFlight {
@@ -508,6 +530,7 @@ pub unsafe extern "C" fn libusb_submit_transfer(transfer: *mut Transfer) -> c_in
                 status,
                 len: len.min((*transfer).length as usize),
                 due: EPOCH.load(Ordering::SeqCst).saturating_add(delay),
+                clat,
                 cancel: false,
             });
             0
@@ -559,19 +582,26 @@ pub extern "C" fn libusb_handle_events_completed(_ctx: *mut c_void, _completed: 
     0
 }
 
-/// Complete every in-flight transfer that is due or cancelled, then run the callbacks.
+/// One event-handling call: the next entry of the event plan; when it is 0 complete every in-flight
+/// transfer that is due or whose cancellation latency has run out, then run the callbacks.
 #[no_mangle]
 pub unsafe extern "C" fn libusb_handle_events_locked(_ctx: *mut c_void, tv: *const TimeVal) -> c_int {
     let mut done: Vec<*mut Transfer> = Vec::new();
     {
         let mut st = state();
+        st.event_calls += 1;
+        let code = st.evplan.pop_front().unwrap_or(0);
+        if code != 0 {
+            return code;
+        }
         let now = EPOCH.load(Ordering::SeqCst);
         let mut i = 0;
         while i < st.inflight.len() {
-            if st.inflight[i].cancel || st.inflight[i].due < now {
+            let cancelled = st.inflight[i].cancel && st.inflight[i].clat == 0;
+            if cancelled || st.inflight[i].due < now {
                 let f = st.inflight.remove(i);
                 let t = f.ptr as *mut Transfer;
-                if f.cancel {
+                if cancelled {
                     (*t).status = TRANSFER_CANCELLED;
                     (*t).actual_length = 0;
                 } else {
@@ -587,18 +617,17 @@ pub unsafe extern "C" fn libusb_handle_events_locked(_ctx: *mut c_void, tv: *con
                 st.completed += 1;
                 done.push(t);
             } else {
+                if st.inflight[i].cancel {
+                    st.inflight[i].clat -= 1;
+                }
                 i += 1;
             }
         }
     }
     if done.is_empty() {
-        let wait = if tv.is_null() {
-            Duration::from_micros(200)
-        } else {
-            Duration::from_micros(((*tv).tv_sec * 1_000_000 + (*tv).tv_usec).max(0) as u64)
-                .min(Duration::from_micros(200))
-        };
-        std::thread::sleep(wait);
+        // nothing happened: libusb would have blocked for the whole timeval
+        let us = if tv.is_null() { 0 } else { ((*tv).tv_sec.max(0) as u64).saturating_mul(1_000_000).saturating_add((*tv).tv_usec.max(0) as u64) };
+        advance_clock_ns(us.saturating_add(1).saturating_mul(1000));
     }
     for t in done {
         if let Some(cb) = (*t).callback {
@@ -606,4 +635,50 @@ pub unsafe extern "C" fn libusb_handle_events_locked(_ctx: *mut c_void, tv: *con
         }
     }
     0
+}
+
+// ---- the virtual monotonic clock ---------------------------------------------------------------
+#[repr(C)]
+pub struct TimeSpec {
+    tv_sec: i64,
+    tv_nsec: i64,
+}
+
+extern "C" {
+    fn syscall(num: std::os::raw::c_long, ...) -> std::os::raw::c_long;
+}
+
+#[cfg(target_arch = "x86_64")]
+const SYS_CLOCK_GETTIME: std::os::raw::c_long = 228;
+#[cfg(target_arch = "aarch64")]
+const SYS_CLOCK_GETTIME: std::os::raw::c_long = 113;
+const CLOCK_MONOTONIC: c_int = 1;
+
+/// nanoseconds of the virtual CLOCK_MONOTONIC
+static VCLOCK_NS: AtomicU64 = AtomicU64::new(1_000_000_000_000);
+
+pub fn advance_clock_ns(ns: u64) {
+    VCLOCK_NS.fetch_add(ns, Ordering::SeqCst);
+}
+
+/// `std::time::Instant::now()` of everything linked into this binary ends here.
+#[no_mangle]
+pub unsafe extern "C" fn clock_gettime(clk: c_int, ts: *mut TimeSpec) -> c_int {
+    if clk == CLOCK_MONOTONIC {
+        let v = VCLOCK_NS.load(Ordering::SeqCst);
+        (*ts).tv_sec = (v / 1_000_000_000) as i64;
+        (*ts).tv_nsec = (v % 1_000_000_000) as i64;
+        0
+    } else {
+        syscall(SYS_CLOCK_GETTIME, clk as std::os::raw::c_long, ts) as c_int
+    }
+}
+
+/// real milliseconds (CLOCK_MONOTONIC of the kernel), for the watchdog of the harness
+pub fn real_ms() -> u64 {
+    let mut ts = TimeSpec { tv_sec: 0, tv_nsec: 0 };
+    unsafe {
+        syscall(SYS_CLOCK_GETTIME, CLOCK_MONOTONIC as std::os::raw::c_long, &mut ts as *mut TimeSpec);
+    }
+    ts.tv_sec as u64 * 1000 + ts.tv_nsec as u64 / 1_000_000
 }
